@@ -317,3 +317,23 @@ Proof.
   exists [mkF 5 (-1) true []], (fun _ => true), (mkT [[4]] []), 5, (KI64, 8).
   vm_compute. split; reflexivity.
 Qed.
+
+(* a pointer parameter aliases the struct held by value in the pointer-bridged
+   struct: after bump(h.C, by) through a *Inner parameter, the script and Go both read the new N *)
+Theorem pointer_param_alias : forall st by_ js,
+  (2 <= length st)%nat ->
+  let '(st1, r) := pstep st (PBump 0 0 by_) in
+  r = o_num (nth 0 st 0 + by_) /\ snd (pstep st1 (PRead js 0)) = o_num (nth 0 st 0 + by_) /\
+  snd (pstep st1 (PRead js 1)) = o_num 1.
+Proof.
+  intros st by_ js H. destruct st as [|a [|b st]]; cbn in H; try lia.
+  cbn. repeat split.
+Qed.
+
+(* a value parameter never does *)
+Theorem value_param_copies : forall st t by_, fst (pstep st (PBump t 1 by_)) = st.
+Proof.
+  intros. unfold pstep, bump_aliases. cbn [fst].
+  replace (1 =? 0) with false by reflexivity. replace (1 =? 2) with false by reflexivity.
+  now rewrite !andb_false_r.
+Qed.
